@@ -245,8 +245,16 @@ fn res_cases() -> Vec<ResCase> {
     let mut v = Vec::new();
     // call-stack exhaustion by unbounded recursion: raised by the recursive Call card
     let m = module(vec![("main", func(&[], vec![sv("x", int(1)), sg("r", call("rec", vec![rv("x")]))])), ("rec", func(&["n"], vec![sv("k", add(rv("n"), int(1))), C::Return(b(call("rec", vec![rv("k")])))]))]);
-    for cs in [3usize, 4, 8, 64] {
-        v.push(ResCase { name: "call-depth", module: m.clone(), cfg: CfgLite { call_stack: cs, ..Default::default() }, kind: "CallStackOverflow", allowed: vec![loc(1, &[1, 0])], chain_allowed: vec![loc(1, &[1, 0]), loc(0, &[1, 0])] });
+    for cs in [3usize, 4, 8, 64, 65, 66, 67, 100, 200, 256] {
+        v.push(ResCase { name: "call-depth", module: m.clone(), cfg: CfgLite { call_stack: cs, stack: 4096, ..Default::default() }, kind: "CallStackOverflow", allowed: vec![loc(1, &[1, 0])], chain_allowed: vec![loc(1, &[1, 0]), loc(0, &[1, 0])] });
+    }
+    // an ordinary error below a long chain of calls: every call card of the chain is reported, however long it is
+    for d in [1usize, 2, 7, 31, 62, 63, 64, 65, 66, 100, 127, 128, 129, 200, 250] {
+        let m = module(vec![
+            ("main", func(&[], vec![sg("r", call("rec", vec![int(0)]))])),
+            ("rec", func(&["n"], vec![C::IfTrue(b(bin(BinOp::Less, rv("n"), int(d as i64))), b(C::Return(b(call("rec", vec![add(rv("n"), int(1))]))))), C::Return(b(C::GetProperty(b(int(1)), b(int(2)))))])),
+        ]);
+        v.push(ResCase { name: Box::leak(format!("deep-chain-{d}").into_boxed_str()), module: m, cfg: CfgLite { stack: 4096, ..Default::default() }, kind: "InvalidArgument", allowed: vec![loc(1, &[1, 0])], chain_allowed: vec![loc(1, &[0, 1, 0]), loc(0, &[0, 0])] });
     }
     // value-stack exhaustion: 1 + (1 + (1 + ...)): with a stack that holds h values the (h+1)-th literal raises
     for depth in [3usize, 5, 9] {
@@ -497,6 +505,36 @@ fn run_res_case(c: &ResCase) -> Option<(String, String)> {
             return Some((
                 format!("resource:{}:chain-vs-function", c.name),
                 format!("{} with {:?}: trace[0] is {} (function {}), the entries behind it are [{}], the call chain of that function is [{}]", c.name, c.cfg, t0.map(|l| describe(&c.module, l)).unwrap_or_default(), t0.map(|l| l.function).unwrap_or(0), rest.iter().map(|l| describe(&c.module, l)).collect::<Vec<_>>().join("; "), want.iter().map(|l| describe(&c.module, l)).collect::<Vec<_>>().join("; ")),
+            ));
+        }
+        return None;
+    }
+    // chains whose exact length is known by construction
+    let exact: Option<Vec<Loc>> = match c.name {
+        // main called rec(0), rec(n) called rec(n + 1) for n = 0 .. d-1
+        n if n.starts_with("deep-chain-") => {
+            let d: usize = n["deep-chain-".len()..].parse().unwrap_or(0);
+            let mut w = vec![loc(1, &[0, 1, 0]); d];
+            w.push(loc(0, &[0, 0]));
+            Some(w)
+        }
+        // the call stack holds `call_stack` frames: main and call_stack - 1 activations of rec, the
+        // innermost of which raised the error on its own call card
+        "call-depth" => {
+            let f = c.cfg.call_stack;
+            let mut w = vec![loc(1, &[1, 0]); f.saturating_sub(2)];
+            w.push(loc(0, &[1, 0]));
+            Some(w)
+        }
+        _ => None,
+    };
+    if let Some(want) = exact {
+        let ok = rest.len() >= want.len() && rest.len() <= want.len() + 1 && rest[..want.len()] == want[..];
+        if !ok {
+            let first_bad = rest.iter().zip(want.iter()).position(|(a, b)| a != b);
+            return Some((
+                format!("resource:{}:chain-length", c.name),
+                format!("{} with {:?}: the active chain has {} call cards (innermost first: {} x the recursive call, then the call in main), the trace lists {} entries behind the first one{}", c.name, c.cfg, want.len(), want.len() - 1, rest.len(), first_bad.map(|i| format!("; entry #{i} is {}", describe(&c.module, &rest[i]))).unwrap_or_default()),
             ));
         }
         return None;
